@@ -3,6 +3,11 @@ NOT_APPLICABLE = {}
 TECHNIQUE = {
     "C16": "TLA+ spec + TLC model checking; generated Rust programs compiled with the real macros, their logged values and compile verdicts validated as traces against the spec (TLC), both build profiles",
     "C17": "TLA+ spec + TLC model checking; generated #[derive(Codec)] programs compiled with the real derive, their logged tables and compile verdicts validated as traces against the spec (TLC), both build profiles",
+    "C01": "TLA+ spec + TLC model checking; trace validation (impl->spec) plus every short byte string through every entry point replayed (spec->impl), both build profiles",
+    "C07": "TLA+ spec + TLC model checking; trace validation (impl->spec) plus every short sequence x transform replayed across a word boundary (spec->impl), both build profiles",
+    "C12": "TLA+ spec + TLC model checking; trace validation (impl->spec) plus all 256 symbol pairs at independent offsets replayed (spec->impl), both build profiles",
+    "C19": "TLA+ spec + TLC model checking; trace validation (impl->spec) plus every short byte string trimmed, replayed (spec->impl), both build profiles",
+    "C20": "TLA+ spec + TLC model checking; trace validation (impl->spec) plus every short masked sequence replayed across a word boundary (spec->impl), both build profiles",
     "C09": "TLA+ spec + TLC model checking; trace validation (impl->spec) plus TLC-generated k-mer operation histories replayed into the real library (spec->impl), both build profiles",
     "C13": "TLA+ spec + TLC model checking; trace validation (impl->spec) plus TLC-enumerated codons x offsets replayed (spec->impl), both build profiles; finite domain closed",
     "C14": "TLA+ spec + TLC model checking; trace validation (impl->spec) plus TLC-enumerated IUPAC codons replayed (spec->impl), both build profiles; finite domain closed",
